@@ -203,3 +203,70 @@ Definition file_weight (wv wr : string -> nat) (prog : rules_file) : nat := sumf
 Definition terminates_within (prog : rules_file) (rounds : nat) : option nat :=
   let '(a, b) := auto_potentials prog rounds in
   if stratified (pot_get a) (pot_get b) prog then Some (file_weight (pot_get a) (pot_get b) prog) else None.
+
+(* ------------------------------------------------------------------ *)
+(* parser-shaped programs: what the nom grammar guarantees about an AST (checked on every AST the implementation
+   parses by the C08 correspondence; hypothesis of PanicProps) *)
+
+Definition fn_arity (n : fn_name) : nat :=
+  match n with
+  | FJoin => 2 | FSubstring => 3 | FRegexReplace => 3 | FNow => 0
+  | _ => 1
+  end.
+
+Definition head_ok (q : list query_part) : bool :=
+  match q with QFilter _ _ :: _ => false | _ => true end.
+
+Fixpoint pwf_lv (v : let_value) : bool :=
+  match v with
+  | LValue _ => true
+  | LAccess a => pwf_aq a
+  | LFunction ps name => Nat.eqb (List.length ps) (fn_arity name) && forallb pwf_lv ps
+  end
+with pwf_part (p : query_part) : bool :=
+  match p with
+  | QMapKeyFilter _ c w => negb (is_unary (fst c)) && pwf_lv w
+  | QFilter _ cnf => forallb (forallb pwf_clause) cnf
+  | _ => true
+  end
+with pwf_aq (a : access_query) : bool :=
+  match a with AccessQuery q _ => forallb pwf_part q && head_ok q end
+with pwf_ac (c : access_clause) : bool :=
+  match c with
+  | GuardAccessClause q _ w _ _ =>
+      pwf_aq q && match aq_query q with [] => false | _ => true end && match w with None => true | Some v => pwf_lv v end
+  end
+with pwf_clause (g : guard_clause) : bool :=
+  match g with
+  | GClause c => pwf_ac c
+  | GNamedRule _ => true
+  | GParameterizedNamedRule ps _ => forallb pwf_lv ps
+  | GBlockClause q b _ => pwf_aq q && pwf_block b
+  | GWhenBlock conds b => forallb (forallb pwf_wc) conds && pwf_block b
+  end
+with pwf_wc (w : when_clause) : bool :=
+  match w with
+  | WClause c => pwf_ac c
+  | WNamedRule _ => true
+  | WParameterizedNamedRule ps _ => forallb pwf_lv ps
+  end
+with pwf_block (b : gblock) : bool :=
+  match b with
+  | Block lets cnf => forallb (fun l => pwf_lv (snd l)) lets && forallb (forallb pwf_clause) cnf
+  end.
+
+Definition pwf_query (q : query) : bool := forallb pwf_part q && head_ok q.
+Definition pwf_cnf (cnf : list (list guard_clause)) : bool := forallb (forallb pwf_clause) cnf.
+Definition pwf_conds (c : when_conditions) : bool := forallb (forallb pwf_wc) c.
+Definition pwf_oconds (c : option when_conditions) : bool := match c with Some c => pwf_conds c | None => true end.
+Definition pwf_lets (lets : list let_expr) : bool := forallb (fun l => pwf_lv (snd l)) lets.
+Definition pwf_rc (c : rule_clause) : bool :=
+  match c with
+  | RClause g => pwf_clause g
+  | RWhenBlock conds b => pwf_conds conds && pwf_block b
+  | RTypeBlock _ conds b q => pwf_oconds conds && pwf_block b && pwf_query q
+  end.
+Definition pwf_rule (x : rule) : bool :=
+  pwf_oconds (rule_conditions x) && pwf_lets (rule_lets x) && forallb (forallb pwf_rc) (rule_cnf x).
+Definition pwf_prog (p : rules_file) : bool :=
+  pwf_lets (rf_lets p) && forallb pwf_rule (rf_rules p) && forallb (fun pr => pwf_rule (pr_rule pr)) (rf_param_rules p).
